@@ -19,8 +19,8 @@ from .facts import Body
 from .core import graph, Call
 
 MAX_DEPTH = 3
-MAX_BLOCKS = 260
-MAX_TOTAL = 2500
+MAX_BLOCKS = 700
+MAX_TOTAL = 4500
 
 
 def _is_place(x):
